@@ -57,7 +57,7 @@ type Step struct {
 	Name string `json:"name,omitempty"`
 }
 
-var editOps = []string{"addGlobal", "addFunc", "addBlock", "appendInst", "appendInst", "appendInst", "insertInst", "insertInst", "removeInst", "replaceTerm", "rename", "renameGlobal", "renameBlock", "addMetadata", "setAddrSpace"}
+var editOps = []string{"addGlobal", "addFunc", "addBlock", "appendInst", "appendInst", "appendInst", "insertInst", "insertInst", "removeInst", "replaceInst", "replaceInst", "bulkAppend", "replaceTerm", "rename", "renameGlobal", "renameBlock", "addMetadata", "setAddrSpace"}
 var observeOps = []string{"obsString", "obsString", "obsWriteTo", "obsFunc", "obsBlock", "obsInst", "obsType", "obsIdent", "obsOperands", "obsSuccs"}
 
 // world is the state built by replaying a history.
@@ -318,6 +318,37 @@ func (w *world) apply(s Step, observe bool) (printed string, isPrint bool) {
 				b.Insts = append(b.Insts[:pos], b.Insts[pos+1:]...)
 			}
 		}
+	case "replaceInst":
+		// same position, same block length: remove an unused instruction and put a new one in its place
+		if f := w.fn(s.A); f != nil {
+			b := f.Blocks[pick(len(f.Blocks), s.B)]
+			if len(b.Insts) > 0 {
+				pos := pick(len(b.Insts), s.C)
+				if s.D%2 == 0 {
+					pos = len(b.Insts) - 1 - pick(len(b.Insts), s.C/5) // near the end, too
+				}
+				in := b.Insts[pos]
+				if v, ok := in.(value.Value); ok && w.uses[v] > 0 {
+					break
+				}
+				w.dropUses(in)
+				b.Insts = append(b.Insts[:pos], b.Insts[pos+1:]...)
+				nw := w.newInst(f, s)
+				b.Insts = append(b.Insts, nil)
+				copy(b.Insts[pos+1:], b.Insts[pos:])
+				b.Insts[pos] = nw
+			}
+		}
+	case "bulkAppend":
+		// a long block: 12..45 instructions at once
+		if f := w.fn(s.A); f != nil {
+			b := f.Blocks[pick(len(f.Blocks), s.A/7)]
+			for k := 0; k < 12+s.D%34; k++ {
+				t := s
+				t.B, t.C = s.B+k, s.C+3*k
+				b.Insts = append(b.Insts, w.newInst(f, t))
+			}
+		}
 	case "setAddrSpace":
 		// the only way to put a stack slot into an address space through the API: assign the field after construction
 		if f := w.fn(s.A); f != nil {
@@ -550,7 +581,7 @@ func shiftsNumbering(steps []Step) bool {
 		}
 		if seenObs {
 			switch s.Op {
-			case "insertInst", "removeInst", "rename", "renameGlobal", "renameBlock", "addGlobal", "addFunc", "addBlock", "appendInst":
+			case "insertInst", "removeInst", "replaceInst", "bulkAppend", "rename", "renameGlobal", "renameBlock", "addGlobal", "addFunc", "addBlock", "appendInst":
 				return true
 			}
 		}
@@ -560,7 +591,7 @@ func shiftsNumbering(steps []Step) bool {
 
 func TestHistories(t *testing.T) {
 	const test = "Histories"
-	hx.Rule(test, "histories of 5..62 steps over the public API drawn by rapid and replayed on fresh modules: add global/function (named or unnamed, named or unnamed parameters), add block, append and insert instructions (add, mul, sub, icmp, alloca, load, store, call of void and non-void functions, select) with operands from the values that exist, remove unused instructions, replace terminators (ret, br, condbr, unreachable), rename values, blocks and globals (to a name or to unnamed); observers (String, WriteTo, Func/Block/instruction LLString, Type, Ident, Operands, Succs) at about a third of the positions. Every state is printable (blocks are created with a terminator). Oracle: replay with observers == replay without (final String()), String() twice identical, every String() observed mid-history equals printing a fresh observer-free replay of the same prefix, and observers never introduce a panic. Non-trivial = an observer followed by an edit that shifts numbering")
+	hx.Rule(test, "histories of 5..62 steps over the public API drawn by rapid and replayed on fresh modules: add global/function (named or unnamed, named or unnamed parameters), add block, append, bulk-append (12..45 at once), insert and replace-in-place instructions (add, mul, sub, icmp, alloca, load, store, call of void and non-void functions, select) with operands from the values that exist, remove unused instructions, replace terminators (ret, br, condbr, unreachable), rename values, blocks and globals (to a name or to unnamed); observers (String, WriteTo, Func/Block/instruction LLString, Type, Ident, Operands, Succs) at about a third of the positions. Every state is printable (blocks are created with a terminator). Oracle: replay with observers == replay without (final String()), String() twice identical, every String() observed mid-history equals printing a fresh observer-free replay of the same prefix, and observers never introduce a panic. Non-trivial = an observer followed by an edit that shifts numbering")
 	hx.Check(t, test, hx.N(1500, 40000), func(rt *rapid.T) {
 		steps := genHistory(rt)
 		hx.Eval(1)
